@@ -842,78 +842,204 @@ func Root(v ssa.Value) ssa.Value {
 	return v
 }
 
-// FreshIn reports whether the object v lives in was created inside the function
-// that contains v (composite literal, new, make, or the result of an in-module
-// function all of whose returns are fresh; one-level summary).
-func (p *Prog) FreshIn(v ssa.Value) bool {
-	return p.fresh(Root(v), 0)
-}
+// FreshIn reports whether reference value v (pointer, slice, map, or an address
+// derived from one) denotes memory created inside the function that contains
+// it: a composite literal / new / make, append(nil, …), the result of an
+// in-module function all of whose returns are fresh (one-level summary), or a
+// reference-typed field of such a fresh local object whose stores in this
+// function are all fresh. A local copy of a struct does NOT make the memory
+// behind its slice/map/pointer fields fresh.
+func (p *Prog) FreshIn(v ssa.Value) bool { return p.freshRef(v, 0, map[ssa.Value]bool{}) }
 
-func (p *Prog) fresh(r ssa.Value, d int) bool {
-	if d > 3 {
+func (p *Prog) freshRef(v ssa.Value, d int, seen map[ssa.Value]bool) bool {
+	if d > 8 || v == nil {
 		return false
 	}
-	switch x := r.(type) {
-	case *ssa.Alloc:
+	if seen[v] {
+		return true // cycle through phis: decided by the other edges
+	}
+	seen[v] = true
+	switch x := v.(type) {
+	case *ssa.Alloc, *ssa.MakeMap, *ssa.MakeSlice, *ssa.MakeChan:
 		return true
-	case *ssa.MakeMap, *ssa.MakeSlice, *ssa.MakeChan:
+	case *ssa.Const:
+		return x.Value == nil // nil slice/map/pointer: nothing shared behind it
+	case *ssa.FieldAddr:
+		return p.freshRef(x.X, d+1, seen)
+	case *ssa.IndexAddr:
+		return p.freshRef(x.X, d+1, seen)
+	case *ssa.Slice:
+		return p.freshRef(x.X, d+1, seen)
+	case *ssa.ChangeType:
+		return p.freshRef(x.X, d+1, seen)
+	case *ssa.MakeInterface:
+		return p.freshRef(x.X, d+1, seen)
+	case *ssa.ChangeInterface:
+		return p.freshRef(x.X, d+1, seen)
+	case *ssa.Convert:
+		return p.freshRef(x.X, d+1, seen)
+	case *ssa.Phi:
+		for _, e := range x.Edges {
+			if !p.freshRef(e, d+1, seen) {
+				return false
+			}
+		}
 		return true
 	case *ssa.Call:
 		n := CalleeName(x.Common())
 		if n == "builtin.append" {
-			// append(nil-or-fresh, ...) is fresh
-			return IsNilConst(x.Common().Args[0]) || p.fresh(Root(x.Common().Args[0]), d+1)
+			return p.freshRef(x.Common().Args[0], d+1, seen)
 		}
-		cal := x.Common().StaticCallee()
-		if cal == nil || !p.InTarget(cal) || cal.Blocks == nil {
+		return p.freshResult(x.Common(), 0, d, seen)
+	case *ssa.Extract:
+		if c, ok := x.Tuple.(*ssa.Call); ok {
+			return p.freshResult(c.Common(), x.Index, d, seen)
+		}
+		return false
+	case *ssa.UnOp:
+		if x.Op != token.MUL {
 			return false
 		}
-		for _, ret := range Returns(cal) {
-			for i := range ret.Results {
-				if _, isPtr := ret.Results[i].Type().Underlying().(*types.Pointer); !isPtr {
-					continue
-				}
-				for _, rv := range ReturnOperand(ret, i) {
-					if IsNilConst(rv) {
-						continue
-					}
-					if !p.fresh(Root(rv), d+1) {
+		switch loc := x.X.(type) {
+		case *ssa.Alloc:
+			// a local variable holding a reference
+			if st := NearestDominatingStore(loc, x); st != nil {
+				return p.freshRef(st.Val, d+1, seen)
+			}
+			n := 0
+			for _, ref := range *loc.Referrers() {
+				if st, ok := ref.(*ssa.Store); ok && st.Addr == loc {
+					n++
+					if !p.freshRef(st.Val, d+1, seen) {
 						return false
 					}
 				}
 			}
+			return n > 0
+		case *ssa.FieldAddr:
+			return p.freshFieldLoad(loc, x, d, seen)
 		}
-		return true
-	case *ssa.Extract:
-		if c, ok := x.Tuple.(*ssa.Call); ok {
-			cal := c.Common().StaticCallee()
-			if cal == nil || !p.InTarget(cal) || cal.Blocks == nil {
+		return false
+	}
+	return false
+}
+
+// freshFieldLoad decides a load of reference-typed field fa (of a local object).
+func (p *Prog) freshFieldLoad(fa *ssa.FieldAddr, at ssa.Instruction, d int, seen map[ssa.Value]bool) bool {
+	// the containing object must itself be a local allocation of this function
+	base := fa.X
+	var al *ssa.Alloc
+	for i := 0; i < 8 && al == nil; i++ {
+		switch b := base.(type) {
+		case *ssa.Alloc:
+			al = b
+		case *ssa.FieldAddr:
+			base = b.X
+		default:
+			// pointer obtained from elsewhere: is it a fresh object (e.g. result of a constructor)?
+			if !p.freshRef(base, d+1, seen) {
 				return false
 			}
-			for _, ret := range Returns(cal) {
-				for _, rv := range ReturnOperand(ret, x.Index) {
-					if IsNilConst(rv) {
-						continue
+			// fresh object built by a callee: its fields were produced for it
+			return true
+		}
+	}
+	if al == nil {
+		return false
+	}
+	// stores to the same field of the same local object
+	var stores []*ssa.Store
+	whole := false
+	for _, ref := range *al.Referrers() {
+		switch r := ref.(type) {
+		case *ssa.Store:
+			if r.Addr == ssa.Value(al) {
+				// whole-struct assignment: contents come from elsewhere unless a fresh literal
+				if !p.freshWholeValue(r.Val, d, seen) {
+					whole = true
+				}
+			}
+		case *ssa.FieldAddr:
+			if r.Field == fa.Field && sameFieldPath(r, fa) {
+				for _, r2 := range *r.Referrers() {
+					if st, ok := r2.(*ssa.Store); ok && st.Addr == ssa.Value(r) {
+						stores = append(stores, st)
 					}
-					if !p.fresh(Root(rv), d+1) {
+				}
+			}
+		}
+	}
+	// nearest dominating field store decides
+	var best *ssa.Store
+	for _, st := range stores {
+		if InstrDominates(st, at) && (best == nil || InstrDominates(best, st)) {
+			best = st
+		}
+	}
+	if best != nil {
+		amb := false
+		for _, st := range stores {
+			if st != best && CanFollow(best, st) && CanFollow(st, at) {
+				amb = true
+			}
+		}
+		if !amb {
+			return p.freshRef(best.Val, d+1, seen)
+		}
+	}
+	if whole {
+		return false
+	}
+	for _, st := range stores {
+		if !p.freshRef(st.Val, d+1, seen) {
+			return false
+		}
+	}
+	return true
+}
+
+func sameFieldPath(a, b *ssa.FieldAddr) bool {
+	return Path(a) == Path(b)
+}
+
+// freshWholeValue: a struct value assigned as a whole is "fresh" only if it is
+// the zero value or loaded from another fresh local literal.
+func (p *Prog) freshWholeValue(v ssa.Value, d int, seen map[ssa.Value]bool) bool {
+	switch x := v.(type) {
+	case *ssa.Const:
+		return true
+	case *ssa.UnOp:
+		if a, ok := x.X.(*ssa.Alloc); ok && x.Op == token.MUL {
+			for _, ref := range *a.Referrers() {
+				if st, ok := ref.(*ssa.Store); ok && st.Addr == ssa.Value(a) {
+					if !p.freshWholeValue(st.Val, d+1, seen) {
 						return false
 					}
 				}
 			}
 			return true
 		}
-	case *ssa.Phi:
-		for _, e := range x.Edges {
-			if IsNilConst(e) || e == x {
-				continue
-			}
-			if !p.fresh(Root(e), d+1) {
+	}
+	return false
+}
+
+// freshResult: result idx of an in-module call is fresh if every return of the callee returns a fresh (or nil) value there.
+func (p *Prog) freshResult(cc *ssa.CallCommon, idx int, d int, seen map[ssa.Value]bool) bool {
+	cal := cc.StaticCallee()
+	if cal == nil || !p.InTarget(cal) || cal.Blocks == nil || d > 5 {
+		return false
+	}
+	for _, ret := range Returns(cal) {
+		if idx >= len(ret.Results) {
+			return false
+		}
+		for _, rv := range ReturnOperand(ret, idx) {
+			if !p.freshRef(rv, d+2, map[ssa.Value]bool{}) {
 				return false
 			}
 		}
-		return true
 	}
-	return false
+	return true
 }
 
 // ---------------------------------------------------------------------------
